@@ -228,6 +228,12 @@ def run(index, rep, tier):
             rep.check(p not in un_params, "R11.4", un.qualname, "parameter %s never read" % p, fn_where(un), "unify_taxon_namespaces reads its `%s` parameter" % p,
                       "DataSet.unify_taxon_namespaces accepts `%s` but never reads it: labels are unified the same way whatever the caller asks" % p)
 
+    # ---- R11.7 what is imported is what is stored
+    with rep.section("R11.7"):
+        rep.rule("R11.7", "what is imported is what is stored: the TreeList operations that take several trees (slice assignment, extend, +=, insert of a sequence) walk their argument at most once, or materialise it first - a generator must not be consumed by the import loop and then stored empty")
+        fam = [f for f in index.functions_in_module("dendropy.datamodel.treecollectionmodel") if f.cls is not None and f.cls.name == "TreeList" and f.name in ("__setitem__", "extend", "__iadd__", "__add__")]
+        rep.floor("R11.7", "multi-tree arguments of TreeList", 3, one_pass_iterable_rule(index, rep, "R11.7", fam, ("value", "other", "trees")))
+
 
 def _bound(index, fi, w, val):
     """is the stored value bound to self.taxon_namespace on every path?"""
@@ -258,6 +264,8 @@ def _bound(index, fi, w, val):
     # (c) constructed with the list's namespace
     if isinstance(val, ast.Name):
         defs = [d for d in walk_no_nested(fi.node) if isinstance(d, ast.Assign) and norm(d.targets[0]) == val.id]
+        # `x = list(x)` only materialises what x was: neither a binder nor a new, unbound value
+        defs = [d for d in defs if not (isinstance(d.value, ast.Call) and isinstance(d.value.func, ast.Name) and d.value.func.id in ("list", "tuple") and len(d.value.args) == 1 and norm(d.value.args[0]) == val.id)]
         oks = []
         if defs:
             for d in defs:
